@@ -632,6 +632,44 @@ def flag_rule(rep, u, fields=("x",), flag="infinity"):
     return n
 
 
+def dbl_n_identity(rep, u, fname="ec_point_proj_dbl_n"):
+    """2^0 * P = P for every P, also for the point of order two (y = 0): the `n == 0` exit comes before anything is written
+    through the point (the y == 0 -> infinity shortcut writes z)."""
+    fn = u.fn(fname)
+    if fn is None or not fn.has_cfg:
+        return 0
+    pt, nn = fn.params[0]["n"], fn.params[1]["n"]
+    zero_tests = []
+    for bid in fn.reachable_blocks():
+        cnd = fn.blocks[bid].cond
+        if cnd is None:
+            continue
+        for y, _ in walk(cnd):
+            if y.get("k") == "bin" and y["op"] in ("==", "!="):
+                a, b = core.strip_casts(y["x"]), core.strip_casts(y["y"])
+                if (core.is_ref(a, name=nn) and const_val(b) == 0) or (core.is_ref(b, name=nn) and const_val(a) == 0):
+                    zero_tests.append(bid)
+    writes = []
+    for pos, root, c, ps in fn.calls():
+        if (c.get("fn") or "").startswith(("bn_assign", "bn_mod", "bn_add", "bn_sub", "bn_mult", "ec_point")) and c.get("args"):
+            b0 = core.base_ref(c["args"][0])
+            if b0 is not None and b0["n"] == pt and core.strip_casts(c["args"][0]).get("k") != "ref":
+                writes.append((pos, c))
+    if not writes:
+        return 0
+    rep.functions.add(fname)
+    first_bad = [c for pos, c in writes if not any(fn.dominates(z, pos[0]) and z != pos[0] for z in zero_tests)]
+    desc = "%s: n = 0 leaves the point untouched (the n == 0 exit dominates every write through the point)" % fname
+    if not zero_tests:
+        rep.undecided("R-MPT", fn, "dbl-zero-times", desc, "no test of n against 0 (the loop form handles it)")
+    elif first_bad:
+        rep.violated("R-MPT", fn, "dbl-zero-times", desc, "%s at line %s writes before n is tested: dbl_n(T, 0) of the order-2 point (y = 0) returns infinity instead of T" % (
+            first_bad[0]["fn"], first_bad[0].get("ln")), first_bad[0].get("ln"))
+    else:
+        rep.proved("R-MPT", fn, "dbl-zero-times", desc, "%d writes, all behind the n == 0 exit" % len(writes))
+    return 1
+
+
 def run(rep, tier):
     # (a) configuration witnesses
     cfgs = all_configs() if tier == "thorough" else analysed_configs("quick")
@@ -665,6 +703,46 @@ def run(rep, tier):
                          "ec_point_unknown_pt_mult precomputes (1 << 4) - 1 = 15 points into it (stack buffer overflow)", file=EC_H, unit=l)
         else:
             rep.proved("R-CFGX", "", "window-mismatch-refused", desc, "compilation stops: " + (e.strip().splitlines()[-1][:100] if e.strip() else ""), file=EC_H, unit=l)
+    # a sliding window is cut out of ONE digit (BN_DIGIT_BITS / wnd_bits windows per digit): a window wider than a digit makes
+    # the loop run zero times and every scalar >= 2 gives infinity.  Such a configuration must not compile.
+    slw = [common.ecdsa_unit("ecdsa:w8:slwin16", ("BN_DIGIT_BIT_CNT=8", "BN_BIT_LEN=1408", "EC_PF_FXP_MULT_ALGO=EC_PF_FXP_MULT_ALGO_SLIDING_WIN",
+                                                   "EC_PF_FXP_MULT_WIN_BITS=16"))]
+    for (l, ok, e) in driver.syntax_only(slw):
+        desc = "a sliding window wider than a bignum digit is rejected at compile time"
+        if ok:
+            rep.violated("R-CFGX", "", "slwin-wider-than-digit-refused", desc, "it compiles: with 8-bit digits and a 16-bit window BN_DIGIT_BITS / wnd_bits = 0 "
+                         "windows are read per digit and ec_point_mult_bp(n - 5) returns infinity", file=EC_H, unit=l)
+        else:
+            rep.proved("R-CFGX", "", "slwin-wider-than-digit-refused", desc, "compilation stops: " + (e.strip().splitlines()[-1][:100] if e.strip() else ""), file=EC_H, unit=l)
+    # the comb column index has wnd_bits bits: the type that carries it (result of bn_combo_column_get, the local it is
+    # assigned to) is at least that wide in a configuration whose window exceeds the digit (8-bit digits, window 9 - the
+    # window tests/ecdsa/main.c uses)
+    uw = driver.load_units([common.ecdsa_unit("ecdsa:w8:comb9", ("BN_DIGIT_BIT_CNT=8", "BN_BIT_LEN=1408", "EC_PF_FXP_MULT_ALGO=EC_PF_FXP_MULT_ALGO_COMB_2T",
+                                                                  "EC_PF_FXP_MULT_WIN_BITS=9"))])["ecdsa:w8:comb9"]
+    nwi = 0
+    fcol = uw.fn("bn_combo_column_get")
+    if fcol is None:
+        raise driver.AnalysisBroken("bn_combo_column_get vanished")
+    for fn in uw.function_list:
+        if fn.relfile() != EC_H or not fn.has_cfg:
+            continue
+        ids = core.result_locals(fn, {"bn_combo_column_get"})
+        if not ids:
+            continue
+        widths = []
+        for pos, root, x, ps in fn.nodes():
+            if x.get("k") == "ref" and x.get("id") in ids and "t" in x:
+                widths.append((uw.type(x["t"]).get("size") or 0) * 8)
+        widths.append((uw.type(fcol.ret).get("size") or 0) * 8)
+        nwi += 1
+        rep.functions.add(fn.name)
+        desc = "%s: the comb column index (9 bits in this configuration) is carried in a type of at least 9 bits" % fn.name
+        if min(widths) >= 9:
+            rep.proved("R-WIDTH", fn, "comb-index-width", desc, "%d bits" % min(widths), unit=uw.label)
+        else:
+            rep.violated("R-WIDTH", fn, "comb-index-width", desc, "carried in %d bits (bn_digit_t): with 8-bit digits and the window of 9 the top index bit is lost - "
+                         "n*G comes back as a finite point" % min(widths), unit=uw.label)
+    rep.floor("comb index carriers (8-bit digits, window 9)", nwi, 2)
     # (b) body analysis
     acfgs = analysed_configs(tier)
     aspecs = [spec_of(c) for c in acfgs]
@@ -716,6 +794,7 @@ def run(rep, tier):
     rep.floor("comb multipliers", ncap, 2)
     rep.floor("doubling-table multipliers", npd, 1)
     rep.floor("comb evaluators (coverage)", ncov, 2)
+    rep.floor("n-fold doubling identity", sum(dbl_n_identity(rep, us[s_.label]) for s_ in aspecs) and 1, 1)
     return driver.finish(
         rep, "other",
         "Static analysis of math/elliptic_curve.h: %d configurations compiled as witnesses, %d analysed in depth. "
